@@ -119,6 +119,7 @@ import matplotlib.pyplot as plt
 from .valueaxis import ValueAxis
 from .time import TimeAxis
 from .frequency import FrequencyAxis
+from .managers import energy_units
 from .saveable import Saveable
 from .datasaveable import DataSaveable
 from .. import REAL
@@ -650,8 +651,11 @@ class DFunction(Saveable, DataSaveable):
             w = t
             t = w.get_TimeAxis()
 
-            Y = w.length*numpy.fft.fftshift(numpy.fft.ifft(
-                numpy.fft.ifftshift(y)))*w.step/(numpy.pi*2.0)
+            # the step of a frequency axis is units managed; the transform
+            # is defined with the step in internal units
+            with energy_units("int"):
+                Y = w.length*numpy.fft.fftshift(numpy.fft.ifft(
+                    numpy.fft.ifftshift(y)))*w.step/(numpy.pi*2.0)
 
             if w.atype == "complete":
 
@@ -735,8 +739,11 @@ class DFunction(Saveable, DataSaveable):
             w = t
             t = w.get_TimeAxis()
 
-            Y = numpy.fft.fftshift(numpy.fft.fft(
-            numpy.fft.ifftshift(y)))*w.step/(numpy.pi*2.0)
+            # the step of a frequency axis is units managed; the transform
+            # is defined with the step in internal units
+            with energy_units("int"):
+                Y = numpy.fft.fftshift(numpy.fft.fft(
+                    numpy.fft.ifftshift(y)))*w.step/(numpy.pi*2.0)
 
             if t.atype == "complete":
 
